@@ -4,7 +4,7 @@ from . import streams_partmeshb
 ID = 'C08'
 PROPS_MODULE = ['Refine.Props.C08', 'Refine.Props.C08Endian', 'Refine.Props.C08Part']
 STREAMS = [streams_codec.MESHB_WRITE, streams_codec.MESHB_READ, cli.CONVERT, cli.CONVERT_MPI,
-           streams_partmeshb.READ, streams_partmeshb.CHUNK_S]
+           streams_partmeshb.READ]
 EXPLANATION = (
     'Proved in Lean (Refine/Props/C08.lean): decodeMeshb (encodeMeshb v m) = ok m for every WellFormed mesh and '
     'v in {2,3,4} (all 16 cell groups, vertex coordinates as bit patterns, ids, geometry records with gref as a '
@@ -28,7 +28,8 @@ EXPLANATION = (
     'rank, the 2-D flag; with roundtrip_meshb this is the round trip of the parallel reader.  Geometry-association '
     'records are NOT in the theorem (tied only).  Tie: partmeshb_read (np 1..5: files from the independent writer '
     'checks/meshio_ref.py, versions 2/3/4, 2-D/3-D, all cell kinds incl. pyramids and high-order, geometry records, '
-    'CAD bytes with all 256 values; per-rank dump == model; python oracle: gathered == file) and partmeshb_chunk.')
+    'CAD bytes with all 256 values; per-rank dump == model; python oracle: gathered == file); the chunk-crossing '
+    'stream partmeshb_chunk runs under C06.')
 ASSUMPTIONS = [
     'serial reader/writer: Props/C08.lean; parallel READER ref_part_meshb: Props/C08Part.lean (gather is a spec-level '
     'definition there: owner-filtered concatenation; the parallel WRITER ref_gather is tied only through the translated '
